@@ -156,6 +156,10 @@ func corrC05(outDir string, seed uint64, tier string, replay string) *report {
 					bases = append(bases, h)
 				}
 			}
+			if len(bases) == 0 {
+				rep.fail(s.name+".NewHash(\"pw\", cheap cost)", "a hash string", "an error or a panic for each of three cost settings", "NewHash fails on an in-domain call")
+				bases = append(bases, referenceHashes...)
+			}
 			for i := 0; i < nMut; i++ {
 				var h string
 				switch {
@@ -271,6 +275,55 @@ func corrC05(outDir string, seed uint64, tier string, replay string) *report {
 			w.Close()
 		})
 		bad("base64le.NewEncoder", str, pan, hung)
+		// streaming with a fragmenting / failing reader and writer and caller buffers of every size class
+		// (the decoder's internal buffer is 1024 bytes: caller buffers beyond 3/4 of it take another path)
+		{
+			long := str
+			if i%3 == 0 {
+				long = e.EncodeToString(r.bytes(r.intn(5000)))
+			}
+			var evs []revent
+			for rest := []byte(long); len(rest) > 0; {
+				k := 1 + r.intn(1+r.intn(1500))
+				if k > len(rest) {
+					k = len(rest)
+				}
+				evs = append(evs, revent{data: rest[:k]})
+				rest = rest[k:]
+			}
+			if r.intn(4) == 0 {
+				evs = append(evs, revent{data: []byte("\n"), err: &tokErr{1}})
+			}
+			bufSizes := []int{1, 2, 3, 4, 5, 7, 64, 767, 768, 769, 1000, 1023, 1024, 1025, 4096}
+			desc := fmt.Sprintf("text_len=%d fragments=%v", len(long), len(evs))
+			pan, hung = guarded(func() {
+				d := base64le.NewDecoder(e, &scriptReader{script: evs})
+				for k := 0; k < 20000; k++ {
+					buf := make([]byte, bufSizes[r.intn(len(bufSizes))])
+					if _, err := d.Read(buf); err != nil {
+						return
+					}
+				}
+			})
+			bad("base64le.NewDecoder with a fragmenting reader", desc, pan, hung)
+			pan, hung = guarded(func() {
+				w := &scriptWriter{}
+				for k := 0; k < 3; k++ {
+					w.script = append(w.script, wresp{fail: r.intn(3) == 0, k: r.intn(5), err: &tokErr{2}})
+				}
+				enc := base64le.NewEncoder(e, w)
+				for rest := []byte(long); len(rest) > 0; {
+					k := 1 + r.intn(1+r.intn(1500))
+					if k > len(rest) {
+						k = len(rest)
+					}
+					enc.Write(rest[:k])
+					rest = rest[k:]
+				}
+				enc.Close()
+			})
+			bad("base64le.NewEncoder with a failing writer", desc, pan, hung)
+		}
 		rep.count("misc"+str, true)
 	}
 	must(cs.flush())
